@@ -185,7 +185,11 @@ func (r *raftNode) shutdown() error {
 	r.closed = true
 	r.Unlock()
 	if r.Raft != nil {
-		r.Raft.Shutdown()
+		// Wait for Raft's goroutines to exit: no FSM call may be in progress
+		// once the caller goes on to close the stores and the metadata.
+		if err := r.Raft.Shutdown().Error(); err != nil {
+			return err
+		}
 	}
 	if r.transport != nil {
 		if err := r.transport.Close(); err != nil {
